@@ -247,6 +247,17 @@ pub struct ProseLine {
     pub has_text: bool,
     /// the source span of this line contains a line break
     pub multiline_src: bool,
+    /// a strong/emph element on this line contains a line break in its own markup (not inside embedded code, raw, math)
+    pub multiline_markup: bool,
+}
+
+/// Line break inside the markup of a strong/emph element, reached through strong/emph bodies only.
+fn newline_in_inline_markup(n: &SyntaxNode) -> bool {
+    match n.kind() {
+        K::Strong | K::Emph | K::Markup => n.children().any(newline_in_inline_markup),
+        K::Space | K::Parbreak => n.text().chars().any(tree::is_newline_char),
+        _ => false,
+    }
 }
 
 fn is_prose_kind(k: K) -> bool {
@@ -267,6 +278,7 @@ pub fn prose_lines(markup: &SyntaxNode) -> Vec<ProseLine> {
     let mut cur_has_prose = false;
     let mut cur_has_text = false;
     let mut cur_multi = false;
+    let mut cur_multi_markup = false;
     let mut cur_nonempty = false; // has any non-comment child
     let mut pending_blank = false;
 
@@ -288,10 +300,12 @@ pub fn prose_lines(markup: &SyntaxNode) -> Vec<ProseLine> {
                             has_prose: cur_has_prose,
                             has_text: cur_has_text,
                             multiline_src: cur_multi,
+                            multiline_markup: cur_multi_markup,
                         });
                         cur_has_prose = false;
                         cur_has_text = false;
                         cur_multi = false;
+                        cur_multi_markup = false;
                         cur_nonempty = false;
                     }
                     // separators around comment-only lines merge to the strongest
@@ -347,12 +361,15 @@ pub fn prose_lines(markup: &SyntaxNode) -> Vec<ProseLine> {
                     if contains_newline(c) {
                         cur_multi = true;
                     }
+                    if matches!(k, K::Strong | K::Emph) && newline_in_inline_markup(c) {
+                        cur_multi_markup = true;
+                    }
                 }
             }
         }
     }
     if cur_nonempty {
-        lines.push(ProseLine { text: cur, sep: 0, has_prose: cur_has_prose, has_text: cur_has_text, multiline_src: cur_multi });
+        lines.push(ProseLine { text: cur, sep: 0, has_prose: cur_has_prose, has_text: cur_has_text, multiline_src: cur_multi, multiline_markup: cur_multi_markup });
     } else if let Some(last) = lines.last_mut() {
         // trailing whitespace of the markup is an outer edge
         last.sep = 0;
